@@ -1,5 +1,6 @@
 import HecsModel.Model.World
 import HecsModel.Model.Proto
+import HecsModel.Spec.World
 /-
   Judge for engine `world`: replays a trace line on the model and renders the model's answer in the
   harness' canonical format.  The comparison itself is a string equality done by the driver.
@@ -75,6 +76,107 @@ def parseOp (verb : String) (toks : List String) : Option Op :=
   | "reserve_entity" => some .reserveEntity
   | "reserve_entities" => do pure (.reserveEntities (← (← f "n").toNat?))
   | _ => none
+
+/-! ### specification oracle (S): the abstract map driven by the implementation's own outputs -/
+
+open Hecs.Spec in
+def specObs (s : SpecW) (hs : List Entity) : String :=
+  let live := sortBy (fun a b => entLt a.1 b.1) (s.live.map (fun p => (p.1, sortComps p.2)))
+  let iter := "[" ++ ";".intercalate (live.map (fun p => showEntity p.1 ++ "=" ++ showComps p.2)) ++ "]"
+  let keys := (s.live.map (fun p => sortNat (p.2.map (·.1)))).eraseDups
+  let groups := keys.map (fun k => (k, (s.live.filter (fun p => sortNat (p.2.map (·.1)) == k)).length))
+  let groups := sortBy (fun a b => natsLt a.1 b.1 || (a.1 == b.1 && a.2 < b.2)) groups
+  let arch := "[" ++ ";".intercalate (groups.map (fun p => showNats p.1 ++ "=" ++ toString p.2)) ++ "]"
+  let h (e : Entity) : String :=
+    (if s.contains e then "1" else "0") ++ "/" ++
+      (match s.lookup e with
+       | some cs => showComps (sortComps cs)
+       | none => if s.reserved.contains e then "[]" else "x")
+  s!"len={s.live.length} iter={iter} arch={arch} hs=" ++ showList h hs
+
+/-- drop `[..]=0` entries (empty archetypes are not observable facts about the map) -/
+def dropEmptyArchs (rhs : String) : String :=
+  let toks := rhs.splitOn " "
+  " ".intercalate (toks.map (fun t =>
+    if t.startsWith "arch=[" then
+      let inner := ((t.drop 6).toString.dropEnd 1).toString
+      let parts := (inner.splitOn ";").filter (fun p => p ≠ "" && !p.endsWith "=0")
+      "arch=[" ++ ";".intercalate parts ++ "]"
+    else t))
+
+def parseRes (tok : String) : Option Res :=
+  if tok == "ok" then some .ok
+  else if tok == "nosuch" then some .nosuch
+  else if tok == "missing" then some .missing
+  else if tok == "panic" then some .panic
+  else if tok.startsWith "e=" then (entity? (tok.drop 2).toString).map .ent
+  else if tok.startsWith "es=" then (entities? (tok.drop 3).toString).map .ents
+  else if tok.startsWith "vals=" then (comps? (tok.drop 5).toString).map .vals
+  else none
+
+/-- result and dropped values reported by the implementation -/
+def parseRhs (rhs : String) : Option (Res × List Comp) :=
+  match (rhs.trimAscii.toString.splitOn " ").filter (· ≠ "") with
+  | [r] => (parseRes r).map (·, [])
+  | [r, d] => do
+    let res ← parseRes r
+    let ds ← if d.startsWith "d=" then comps? (d.drop 2).toString else none
+    pure (res, ds)
+  | _ => none
+
+abbrev Specs := List (String × Spec.SpecW)
+def getS (ws : Specs) (n : String) : Spec.SpecW := ((ws.find? (·.1 == n)).map (·.2)).getD {}
+def setS (ws : Specs) (n : String) (w : Spec.SpecW) : Specs :=
+  if ws.any (·.1 == n) then ws.map (fun p => if p.1 == n then (n, w) else p) else ws ++ [(n, w)]
+
+/-- (S): is the implementation's own answer an allowed transition of the abstract map?  Returns the
+successor spec state, or the reason it is not. -/
+def specLine (ss : Specs) (lhs rhs : String) : Except String Specs :=
+  let toks := (lhs.trimAscii.toString.splitOn " ").filter (· ≠ "")
+  match toks with
+  | "world" :: n :: _ => .ok (setS ss n {})
+  | verb :: n :: args =>
+    let s := getS ss n
+    match verb with
+    | "obs" =>
+      match (field args "hs").bind entities? with
+      | some hs =>
+        let want := specObs s hs
+        if dropEmptyArchs rhs.trimAscii.toString == want then .ok ss
+        else .error s!"observable state differs from the abstract map: spec={want}"
+      | none => .error "bad obs"
+    | "drop" =>
+      match parseRhs rhs with
+      | some (_, d) =>
+        if Spec.sameComps d (s.live.flatMap (·.2)) then .ok (ss.filter (·.1 != n))
+        else .error "dropping the world must drop exactly the stored components"
+      | none => .error "bad drop rhs"
+    | "take" =>
+      match (field args "h").bind entity?, field args "into", parseRhs rhs with
+      | some h, some into, some (res, d) =>
+        let s1 := s.flush
+        match s1.lookup h with
+        | none => if res == .nosuch && d == [] then .ok (setS ss n s1) else .error "take of a handle that is not live must report NoSuchEntity"
+        | some old =>
+          if into == "-" then
+            if res == .ok && Spec.sameComps d old then .ok (setS ss n (s1.erase h))
+            else .error "a dropped TakenEntity must drop exactly the entity's components"
+          else
+            match res with
+            | .ent e =>
+              match Spec.apply (getS ss into) (.spawn old) (.ent e) d with
+              | .ok v' => .ok (setS (setS ss n (s1.erase h)) into v')
+              | .error m => .error m
+            | _ => .error "take into another world must return the new handle"
+      | _, _, _ => .error "bad take"
+    | _ =>
+      match parseOp verb args, parseRhs rhs with
+      | some op, some (res, d) =>
+        match Spec.apply s op res d with
+        | .ok s' => .ok (setS ss n s')
+        | .error m => .error m
+      | _, _ => .error s!"cannot parse: {lhs} => {rhs}"
+  | _ => .error "bad line"
 
 /-- returns the new state and the model's rendering of the right-hand side, or an error -/
 def stepLine (ws : Worlds) (lhs : String) : Except String (Worlds × String) :=
